@@ -10,3 +10,9 @@ import XProofs.Properties.C12
 #print axioms Properties.C12.C12_restored_same_contents_under_assignments
 #print axioms Properties.C12.C12_copy_well_formed
 #print axioms Properties.C12.C12_canonical_form_preserved
+#print axioms Properties.C12.C12_pickled_manager_is_the_original
+#print axioms Properties.C12.C12_pickled_manager_same_table
+#print axioms Properties.C12.C12_pickled_manager_passes_verify
+#print axioms Properties.C12.C12_pickled_manager_same_dump
+#print axioms Properties.C12.C12_pickled_manager_same_behaviour
+#print axioms Properties.C12.C12_pickled_manager_same_outcomes_per_call
